@@ -77,6 +77,7 @@ class Audit:
         self.planned = False
         self.vi_converged = None
         self.edges = {}            # (s, a) -> {ns: p}  (positive only)
+        self.rewards = {}          # (s, a, ns) -> float reward reported for a positive-probability edge
 
     def add(self, kind, detail, exc=None, where=None, key=None):
         if len(self.problems) < 200:
@@ -202,6 +203,7 @@ def audit(dom, pomdp=False, plan=True, vi_cap=None):
                 try:
                     rew = dom.reward(s, a, ns)
                     rf = float(rew)
+                    au.rewards[(s, a, ns)] = rf
                     if not math.isfinite(rf):
                         au.add('reward_not_finite', dict(ctx, successor=repr(ns), reward=repr(rew)))
                 except CA as e:
